@@ -142,9 +142,25 @@ pub fn stage_and_access(_sb: &mut StoreBox, _q: &[u32], _op: &Value, _ev: &mut M
                 let query = tokenize_query(&string_of(_q), &sb.store.lang);
                 let qref = query.to_ref();
                 let mut out = Vec::new();
+                let mut scored = Vec::new();
                 for rec in sb.store.records.iter() {
                     let mut hit = core::verif::Hit::from_record(rec);
                     core::verif::score(&qref, &mut hit);
+                    scored.push(hit);
+                }
+                // the comparator itself on every pair of scored records: -1 first goes before second, 0 tie, 1 after
+                let mut cmp = Vec::new();
+                if scored.len() <= 8 {
+                    for i in 0..scored.len() {
+                        for j in 0..scored.len() {
+                            if i != j {
+                                let o = core::verif::compare_hits(&scored[i], &scored[j]);
+                                cmp.push(json!([i, j, match o { std::cmp::Ordering::Less => -1, std::cmp::Ordering::Equal => 0, std::cmp::Ordering::Greater => 1 }]));
+                            }
+                        }
+                    }
+                }
+                for (rec, hit) in sb.store.records.iter().zip(scored.into_iter()) {
                     let pass = core::verif::hit_matches(&qref, &hit);
                     out.push(json!({
                         "ix": rec.ix, "id": rec.id,
@@ -153,11 +169,12 @@ pub fn stage_and_access(_sb: &mut StoreBox, _q: &[u32], _op: &Value, _ev: &mut M
                         "scores": scores_json(&hit.scores), "pass": pass,
                     }));
                 }
-                out
+                (out, cmp)
             });
             match res {
-                Ok(out) => {
+                Ok((out, cmp)) => {
                     _ev.insert("stage".into(), Value::Array(out));
+                    _ev.insert("cmp".into(), Value::Array(cmp));
                 }
                 Err(msg) => {
                     _ev.insert("stage_panic".into(), json!(msg));
